@@ -5,6 +5,9 @@
 //  (b3) `ob ...`  a MemoryLeakOutputStringBuffer with fabricated leak nodes (exact-size content blocks)
 //  (b2) `det ...` a private MemoryLeakDetector with a recording MemoryLeakFailure
 // Observations: message bytes (hex), printed position; filled/limit (hook H2), strlen, canary, FNV of text.
+#include <typeinfo>
+#include <cxxabi.h>
+#include <new>
 #include "common.h"
 #include "CppUTest/TestHarness.h"
 #include "CppUTest/TestFailure.h"
@@ -70,6 +73,21 @@ void emit_message(const TestFailure& f) {
 }
 
 // ---------------------------------------------------------------- (a) failure classes
+
+struct CustomException : public std::exception {
+    std::string what_;
+    explicit CustomException(const std::string& w) : what_(w) {}
+    ~CustomException() throw() {}
+    const char* what() const throw() { return what_.c_str(); }
+};
+namespace outer { namespace inner {
+template <class A, class B> struct DeepException : public std::exception {
+    std::string what_;
+    explicit DeepException(const std::string& w) : what_(w) {}
+    ~DeepException() throw() {}
+    const char* what() const throw() { return what_.c_str(); }
+};
+} }
 
 void do_failure(const Words& w, const std::string& raw) {
     std::vector<void*> blocks;
@@ -156,6 +174,38 @@ void do_failure(const Words& w, const std::string& raw) {
         emit_message(BitsEqualFailure(&shell, file, line, (unsigned long) vh::to_u64(w[2]), (unsigned long) vh::to_u64(w[3]),
                                       (unsigned long) vh::to_u64(w[4]), (size_t) vh::to_u64(w[5]), text));
     }
+    else if (k == "base" && n == 2) {
+        vh::emit_op(raw);
+        emit_message(TestFailure(&shell, file, line));
+    }
+    else if (k == "basemsg" && n == 3 && w[2] != "N") {
+        vh::emit_op(raw);
+        SimpleString m(cstring_block(w[2], blocks));
+        emit_message(TestFailure(&shell, file, line, m));
+        emit_message(TestFailure(&shell, m));
+    }
+    else if (k == "excunknown" && n == 2) {
+        vh::emit_op(raw);
+        emit_message(UnexpectedExceptionFailure(&shell));
+    }
+    else if (k == "exc" && n == 4 && w[3] != "N" && (w[2] == "runtime" || w[2] == "logic" || w[2] == "custom" || w[2] == "nested")) {
+        vh::emit_op(raw);
+        std::string what = vh::unhex(w[3]);
+        std::exception* e = 0;
+        if (w[2] == "runtime") e = new std::runtime_error(what);
+        else if (w[2] == "logic") e = new std::logic_error(what);
+        else if (w[2] == "custom") e = new CustomException(what);
+        else e = new outer::inner::DeepException<int, CustomException>(what);
+        // the type name is an input of the model (typeid + demangler are the platform's)
+        int status = -1;
+        const char* mangled = typeid(*e).name();
+        char* dem = abi::__cxa_demangle(mangled, 0, 0, &status);
+        std::string tn = (status == 0 && dem) ? dem : mangled;
+        free(dem);
+        vh::emit("typename %s", vh::hex(tn).c_str());
+        emit_message(UnexpectedExceptionFailure(&shell, *e));
+        delete e;
+    }
     else vh::emit("> skip");
     for (size_t i = 0; i < blocks.size(); i++) free(blocks[i]);
 }
@@ -216,7 +266,8 @@ void parse_report(const std::string& t) {
 // ---- (b2) bookkeeping that mirrors the detector's table order (hash = address % table size, newest first)
 struct Rec {
     std::string label; char* mem; size_t size; std::string file; size_t line; TestMemoryAllocator* allocator;
-    unsigned number; MemLeakPeriod period; bool corrupted;
+    unsigned number; MemLeakPeriod period; bool corrupted; bool nolocation;
+    std::string filew() const { return nolocation ? std::string("U") : vh::hex(file); }
 };
 bool in_period(const Rec& r, MemLeakPeriod period) {
     return period == mem_leak_period_all || r.period == period || (r.period != mem_leak_period_disabled && period == mem_leak_period_enabled);
@@ -366,35 +417,51 @@ void do_det(World& w, const Words& x, const std::string& raw) {
         w.det->clearAllAccounting(mem_leak_period_all);
         for (int i = 0; i < MEMORY_LEAK_HASH_TABLE_SIZE; i++) w.table[i].clear();
     }
+    else if (k == "alloc0" && x.size() == 6) {
+        // det alloc0 <label> <size> <allockind> <pattern>: the overload without a location
+        for (int i = 0; i < MEMORY_LEAK_HASH_TABLE_SIZE; i++)
+            for (size_t j = 0; j < w.table[i].size(); j++) if (w.table[i][j].label == x[2]) { vh::emit("> skip"); return; }
+        vh::emit_op(raw);
+        Rec r; r.label = x[2]; r.size = (size_t) vh::to_u64(x[3]); r.file = ""; r.line = 0; r.nolocation = true;
+        r.allocator = allocator_of(w, x[4]); r.period = w.period; r.corrupted = false; r.number = w.next_number++;
+        unsigned pat = (unsigned) vh::to_u64(x[5]);
+        r.mem = w.det->allocMemory(r.allocator, r.size);
+        for (size_t i = 0; i < r.size; i++) r.mem[i] = (char) ((pat + i * 7) & 0xff);
+        std::vector<Rec>& bucket = w.table[(size_t) r.mem % MEMORY_LEAK_HASH_TABLE_SIZE];
+        bucket.insert(bucket.begin(), r);
+    }
     else if (k == "alloc" && x.size() == 8 && is_nul_free_hex(x[4]) && x[4] != "N") {
         // det alloc <label> <size> <filehex> <line> <allockind> <pattern>
         for (int i = 0; i < MEMORY_LEAK_HASH_TABLE_SIZE; i++)
             for (size_t j = 0; j < w.table[i].size(); j++) if (w.table[i][j].label == x[2]) { vh::emit("> skip"); return; }
         vh::emit_op(raw);
         Rec r; r.label = x[2]; r.size = (size_t) vh::to_u64(x[3]); r.file = vh::unhex(x[4]); r.line = (size_t) vh::to_u64(x[5]);
-        r.allocator = allocator_of(w, x[6]); r.period = w.period; r.corrupted = false; r.number = w.next_number++;
+        r.allocator = allocator_of(w, x[6]); r.period = w.period; r.corrupted = false; r.nolocation = false; r.number = w.next_number++;
         unsigned pat = (unsigned) vh::to_u64(x[7]);
         r.mem = w.det->allocMemory(r.allocator, r.size, w.keep.str(r.file), r.line);
         for (size_t i = 0; i < r.size; i++) r.mem[i] = (char) ((pat + i * 7) & 0xff);
         std::vector<Rec>& bucket = w.table[(size_t) r.mem % MEMORY_LEAK_HASH_TABLE_SIZE];
         bucket.insert(bucket.begin(), r);
     }
-    else if ((k == "free" && x.size() == 6) || (k == "corrupt" && x.size() == 3)) {
+    else if ((k == "free" && x.size() == 6) || (k == "free0" && x.size() == 4) || (k == "corrupt" && x.size() == 3)) {
         // det free <label> <allockind> <filehex> <line>    /    det corrupt <label>
         for (int i = 0; i < MEMORY_LEAK_HASH_TABLE_SIZE; i++)
             for (size_t j = 0; j < w.table[i].size(); j++) if (w.table[i][j].label == x[2]) {
                 Rec& r = w.table[i][j];
                 if (k == "corrupt") { vh::emit_op(raw); r.mem[r.size] = 'X'; r.corrupted = true; emit_state(det_buffer(w)); return; }
-                if (x[4] == "N" || !is_nul_free_hex(x[4])) { vh::emit("> skip"); return; }
+                bool noloc = (k == "free0");
+                if (!noloc && (x[4] == "N" || !is_nul_free_hex(x[4]))) { vh::emit("> skip"); return; }
                 TestMemoryAllocator* fa = allocator_of(w, x[3]);
                 bool match = (fa->actualAllocator() == r.allocator->actualAllocator()) || fa->actualAllocator()->isOfEqualType(r.allocator->actualAllocator());
                 const char* kind = !match ? "mismatch" : r.corrupted ? "corrupt" : "ok";
-                vh::emit("> det free %s %s %lu %lu %s %s %s %s", kind, vh::hex(r.file).c_str(), (unsigned long) r.line, (unsigned long) r.size,
-                         vh::hex(std::string(r.allocator->alloc_name())).c_str(), x[4].c_str(), x[5].c_str(),
+                // file word `U` = the call gave no location (the code substitutes its own text and line 0)
+                vh::emit("> det free %s %s %lu %lu %s %s %s %s", kind, r.filew().c_str(), (unsigned long) r.line, (unsigned long) r.size,
+                         vh::hex(std::string(r.allocator->alloc_name())).c_str(), noloc ? "U" : x[4].c_str(), noloc ? "0" : x[5].c_str(),
                          vh::hex(std::string(fa->free_name())).c_str());
                 char* mem = r.mem;
                 w.table[i].erase(w.table[i].begin() + (long) j);
-                w.det->deallocMemory(fa, mem, w.keep.str(vh::unhex(x[4])), (size_t) vh::to_u64(x[5]));
+                if (noloc) w.det->deallocMemory(fa, mem);
+                else w.det->deallocMemory(fa, mem, w.keep.str(vh::unhex(x[4])), (size_t) vh::to_u64(x[5]));
                 emit_new_failures(w, before);
                 emit_state(det_buffer(w));
                 return;
@@ -409,6 +476,14 @@ void do_det(World& w, const Words& x, const std::string& raw) {
                  vh::hex(std::string(NullUnknownAllocator::defaultAllocator()->alloc_name())).c_str());
         w.det->deallocMemory(fa, never_allocated, w.keep.str(vh::unhex(x[2])), (size_t) vh::to_u64(x[3]));
     }
+    else if (k == "freebad0" && x.size() == 3) {
+        // det freebad0 <allockind>: deallocMemory(allocator, memory) on a pointer that was never allocated
+        static char never_allocated0[16];
+        TestMemoryAllocator* fa = allocator_of(w, x[2]);
+        vh::emit("> det freebad U 0 %s %s", vh::hex(std::string(fa->free_name())).c_str(),
+                 vh::hex(std::string(NullUnknownAllocator::defaultAllocator()->alloc_name())).c_str());
+        w.det->deallocMemory(fa, never_allocated0);
+    }
     else if (k == "report" && x.size() == 3 && (x[2] == "all" || x[2] == "checking" || x[2] == "enabled")) {
         vh::emit_op(raw);
         MemLeakPeriod p = x[2] == "all" ? mem_leak_period_all : x[2] == "checking" ? mem_leak_period_checking : mem_leak_period_enabled;
@@ -418,7 +493,7 @@ void do_det(World& w, const Words& x, const std::string& raw) {
                 if (!in_period(r, p)) continue;
                 char pbuf[64]; snprintf(pbuf, sizeof pbuf, "%p", (void*) r.mem);
                 // environment: the leaks of the period in table order, with the C library's %p text
-                vh::emit("leak %u %s %lu %s %s %s", r.number, vh::hex(r.file).c_str(), (unsigned long) r.line,
+                vh::emit("leak %u %s %lu %s %s %s", r.number, r.filew().c_str(), (unsigned long) r.line,
                          vh::hex(std::string(r.allocator->alloc_name())).c_str(), vh::hex(std::string(pbuf)).c_str(), vh::hex(r.mem, r.size).c_str());
             }
         const char* t = w.det->report(p);
